@@ -331,7 +331,7 @@ class C10(Check):
             return
         sdir = os.path.join(VERIF, 'corpus', self.id, 'search')
         jobs = [('window-q4.ops', '7', '900000', {'C10_ORIGINAL': '1'}, True),
-                ('window-q4.ops', '5', '400000', {}, False)]
+                ('window-q4.ops', '5', '700000', {}, False)]
         if tier == 'thorough':
             jobs += [('window-q4.ops', '7', '12000000', {}, False), ('window-q1.ops', '6', '20000000', {}, False)]
         for f, window, limit, env, expect in jobs:
